@@ -3,11 +3,23 @@
 #include <time.h>
 #include <sys/time.h>
 #include <stddef.h>
+#include "support/VerifSimHooks.h"
 namespace vs {
 uint64_t g_simNowUs = 1000000, g_simClockReads = 0, g_simStartUs = 1000000;
 SimSelectHandler g_simSelectHandler = NULL;
 void SimClockReset(uint64_t startUs) {g_simNowUs = g_simStartUs = startUs; g_simClockReads = 0;}
 void SimClockAdvance(uint64_t d) {g_simNowUs += d;}
+static uint64_t g_simRandState = 1;
+static uint64_t NextRand() {g_simRandState += 0x9e3779b97f4a7c15ULL; uint64_t z = g_simRandState; z = (z^(z>>30))*0xbf58476d1ce4e5b9ULL; z = (z^(z>>27))*0x94d049bb133111ebULL; return z^(z>>31);}
+static bool Rand32(uint32_t * r) {*r = (uint32_t)(NextRand()>>32); return true;}
+static bool Rand64(uint64_t * r) {*r = NextRand(); return true;}
+static MuscleVerifSimHooks g_netsimHooks;   // all other hooks stay NULL: netsim is single-threaded
+void SimRandomReset(uint64_t seed)
+{
+   g_simRandState = seed;
+   g_netsimHooks.random32 = Rand32; g_netsimHooks.random64 = Rand64;
+   g_muscleVerifSim = &g_netsimHooks;
+}
 }
 using namespace vs;
 static const uint64_t kWallOffsetUs = 1700000000ULL*1000000ULL;   // simulated wall clock = fixed epoch + simulated monotonic clock
